@@ -11,7 +11,7 @@ pub fn meta() -> PropertyMeta {
     PropertyMeta {
         id: "C03",
         level: "exploration",
-        rule: "(a) exhaustive: every definition UPPER{1..3 over A,B} lower{0..2 over a,b} suffix in {none,1,2,10} x every candidate string up to length 5 (quick) / 6 (thorough) over {A,a,B,b,0,1,2,_}; (b) generated definitions up to 12 characters x candidates derived from them (every prefix, one-character extensions, case flips, suffix variants none/1/01/2/defined/defined+-1/0-prefixed) and random strings up to 12 characters. Oracle: independent reference matcher, an iff. Non-trivial: the candidate shares at least its first character (ignoring case) with the definition, so the verdict is not decided at byte 0.",
+        rule: "(a) exhaustive: every definition UPPER{1..3 over A,B} lower{0..2 over a,b} suffix in {none,1,2,10} x every candidate string up to length 5 (quick) / 6 (thorough) over {A,a,B,b,0,1,2,_}; (b) generated definitions up to 12 characters x candidates derived from them (every prefix, one-character extensions, case flips, suffix variants none/1/01/2/defined/defined+-1/0-prefixed) and random strings up to 12 characters. Oracle: independent reference matcher, an iff. Numeric suffixes of up to 11 digits with candidates that change one digit, drop the first or prepend one. Non-trivial: the candidate shares at least its first character (ignoring case) with the definition, so the verdict is not decided at byte 0.",
         assumptions: &[
             "definitions have SCPI shape UPPER+ lower* digit* (now and then with digits embedded in the upper-case part, e.g. P6V, CH1A); the trailing digit run is the numeric suffix",
             "a candidate suffix that is numerically equal to the defined one but spelled with leading zeros is not judged (the property does not say whether 01 equals 1)",
